@@ -64,7 +64,7 @@ type doc struct {
 }
 
 type docEdit struct {
-	Kind string `json:"kind"` // delete-person | replace-person | add-child | change-birth
+	Kind string `json:"kind"` // delete-person | replace-person | add-child | change-birth | drop-wife-line | drop-husband-line | drop-child-line | reset-family-lines
 	A    int    `json:"a"`
 	B    int    `json:"b"`
 }
@@ -99,6 +99,38 @@ func applyEdit(document *gedcom.Document, e docEdit) (ok bool) {
 		}
 		fams[e.B%len(fams)].AddChild(ind)
 		return true
+	case "drop-wife-line", "drop-husband-line", "drop-child-line", "reset-family-lines":
+		// a HUSB / WIFE / CHIL line removed through the generic node API (not through the setters)
+		if len(fams) == 0 {
+			return false
+		}
+		fam := fams[e.B%len(fams)]
+		want := map[string]string{"drop-wife-line": "WIFE", "drop-husband-line": "HUSB", "drop-child-line": "CHIL"}[e.Kind]
+		if e.Kind == "reset-family-lines" {
+			// SetNodes with the lines in reverse order and without the first role line
+			var keep gedcom.Nodes
+			dropped := false
+			for i := len(fam.Nodes()) - 1; i >= 0; i-- {
+				n := fam.Nodes()[i]
+				switch n.Tag().Tag() {
+				case "HUSB", "WIFE", "CHIL":
+					if !dropped {
+						dropped = true
+						continue
+					}
+				}
+				keep = append(keep, n)
+			}
+			fam.SetNodes(keep)
+			return dropped
+		}
+		for _, n := range fam.Nodes() {
+			if n.Tag().Tag() == want {
+				fam.DeleteNode(n)
+				return true
+			}
+		}
+		return false
 	case "change-birth":
 		b, _ := ind.Birth()
 		if b == nil {
@@ -770,7 +802,7 @@ func genDoc(t *rapid.T) *doc {
 	d.ReverseKid = rapid.Bool().Draw(t, "reverseKids")
 	if rapid.IntRange(0, 3).Draw(t, "edited") == 0 {
 		for k := rapid.IntRange(1, 2).Draw(t, "nedits"); k > 0; k-- {
-			d.Edits = append(d.Edits, docEdit{Kind: rapid.SampledFrom([]string{"delete-person", "replace-person", "add-child", "change-birth"}).Draw(t, "editKind"),
+			d.Edits = append(d.Edits, docEdit{Kind: rapid.SampledFrom([]string{"delete-person", "replace-person", "add-child", "change-birth", "drop-wife-line", "drop-husband-line", "drop-child-line", "reset-family-lines"}).Draw(t, "editKind"),
 				A: rapid.IntRange(0, 6).Draw(t, "editA"), B: rapid.IntRange(0, 200).Draw(t, "editB")})
 		}
 	}
@@ -787,7 +819,7 @@ func seq(n int) []int {
 
 func TestCheckWarnings(t *testing.T) {
 	s := harness.NewSub("warnings-sound-and-complete",
-		"random family graphs (1..7 people, 0..3 families, distinct roles inside a family, a sibling pair shares at most one family) with exact D Mon Y dates between about 1600 and 1975 (a fifth of the documents in an early century, years with one to four digits): sibling gaps from {0,1,2,3,30,200,269,270,280,281,400,1000} days, children born -400/-1/0/+1 days or 15-35 years relative to a parent, deaths at -10 days .. 130 years incl. 99.9/100.1, marriages at 10/15.9/16.1/25/60/99.9/100.1/104 years, baptisms/burials around birth/death, 0-3 SEX lines, unparsable dates in RESI/ENGA events; the multiset of (warning kind, people, dates) computed from the facts must equal the projection of Document.Warnings(), again on a second call after the views and similarities of the document were read, and before and after reordering records and children; for a quarter of the documents 1..2 edits through the public API follow (a person deleted, replaced by another under the same pointer, added as a child, a birth date changed) and the report must then be that of the same text decoded from nothing; non-trivial = at least one warranted warning and at least one candidate of another kind that is not warranted")
+		"random family graphs (1..7 people, 0..3 families, distinct roles inside a family, a sibling pair shares at most one family) with exact D Mon Y dates between about 1600 and 1975 (a fifth of the documents in an early century, years with one to four digits): sibling gaps from {0,1,2,3,30,200,269,270,280,281,400,1000} days, children born -400/-1/0/+1 days or 15-35 years relative to a parent, deaths at -10 days .. 130 years incl. 99.9/100.1, marriages at 10/15.9/16.1/25/60/99.9/100.1/104 years, baptisms/burials around birth/death, 0-3 SEX lines, unparsable dates in RESI/ENGA events; the multiset of (warning kind, people, dates) computed from the facts must equal the projection of Document.Warnings(), again on a second call after the views and similarities of the document were read, and before and after reordering records and children; for a quarter of the documents 1..2 edits through the public API follow (a person deleted, replaced by another under the same pointer, added as a child, a birth date changed, a HUSB/WIFE/CHIL line removed through DeleteNode or SetNodes) and the report must then be that of the same text decoded from nothing; non-trivial = at least one warranted warning and at least one candidate of another kind that is not warranted")
 	s.Rapid(t, harness.Share(harness.Pick(80000, 2000000)), 200, func(rt *rapid.T) {
 		d := genDoc(rt)
 		fl, nexp, kinds := check(d)
